@@ -519,21 +519,27 @@ func (c *EWCase) Run() string {
 		eq = func(a, b interface{}) bool { return closeVal(a, b, 16) }
 	}
 	if inexact && c.Mode == "incr" {
-		// old + f(x) may cancel: the error bound is relative to the addends, not to the sum
-		scale := 0.0
-		for k := range exp {
-			if !isUndef(exp[k]) {
-				scale = maxF(scale, magnitude(exp[k]))
-			}
-			scale = maxF(scale, magnitude(Dst.arr.E[k]))
-		}
+		// old + f(x) may cancel: the error bound is relative to the two addends of THIS element, not to
+		// their sum; the bound travels with the expected value
 		eps := 2.3e-16
 		if d.Name == "float32" || d.Name == "complex64" {
 			eps = 1.2e-7
 		}
+		wt := Arr{DT: want.DT, Shape: want.Shape, E: make([]interface{}, len(want.E))}
+		for k := range want.E {
+			wt.E[k] = want.E[k]
+			if isUndef(want.E[k]) || isUndef(exp[k]) || !finiteVal(exp[k]) || !finiteVal(Dst.arr.E[k]) {
+				continue
+			}
+			wt.E[k] = tolVal{V: want.E[k], Tol: 32 * eps * maxF(magnitude(exp[k]), magnitude(Dst.arr.E[k]))}
+		}
+		want = wt
 		base := eq
 		eq = func(a, b interface{}) bool {
-			return base(a, b) || (finiteVal(a) && finiteVal(b) && magnitude(subVal(a, b)) <= 32*eps*scale)
+			if tv, ok := b.(tolVal); ok {
+				return base(a, tv.V) || (finiteVal(a) && finiteVal(tv.V) && magnitude(subVal(a, tv.V)) <= tv.Tol)
+			}
+			return base(a, b)
 		}
 	}
 	if inexact && (d.Name == "float32" || d.Name == "complex64") {
@@ -761,6 +767,14 @@ func awkward32(v interface{}) bool {
 	}
 	return false
 }
+
+// tolVal is an expected value with an absolute error bound of its own.
+type tolVal struct {
+	V   interface{}
+	Tol float64
+}
+
+func (t tolVal) String() string { return fmtVal(t.V) }
 
 func maxF(a, b float64) float64 {
 	if a > b {
